@@ -154,9 +154,9 @@ def _trr_frames(b):
     return out
 
 
-def trr_rewrite(path, double=True, with_v=True, with_f=True, seed=0):
+def trr_rewrite(path, double=True, with_v=True, with_f=True, seed=0, with_vir=False, with_pres=False):
     """rewrite a TRR in GROMACS double precision (a -double build) or keep single precision, each frame also carrying
-    velocities and / or forces (what mdrun writes with nstvout / nstfout)"""
+    velocities and / or forces (what mdrun writes with nstvout / nstfout) and / or the virial and pressure tensors"""
     with open(path, 'rb') as f:
         b = f.read()
     frames = _trr_frames(b)
@@ -169,11 +169,15 @@ def trr_rewrite(path, double=True, with_v=True, with_f=True, seed=0):
         out.extend(fr['title'] + b'\0' * (-len(fr['title']) % 4))
         w = 8 if double else 4
         ft = '>f8' if double else '>f4'
-        out.extend(struct.pack('>13i', 0, 0, 9 * w if fr['box'] is not None else 0, 0, 0, 0, 0, n * 3 * w,
+        out.extend(struct.pack('>13i', 0, 0, 9 * w if fr['box'] is not None else 0, 9 * w if with_vir else 0, 9 * w if with_pres else 0, 0, 0, n * 3 * w,
                                n * 3 * w if with_v else 0, n * 3 * w if with_f else 0, n, fr['step'], fr['nre']))
         out.extend(struct.pack('>dd' if double else '>ff', float(fr['t']), float(fr['lam'])))
         if fr['box'] is not None:
             out.extend(fr['box'].astype(ft).tobytes())
+        if with_vir:
+            out.extend(r.uniform(-300, 300, size=9).astype(ft).tobytes())       # virial and pressure tensors (energy steps of mdrun)
+        if with_pres:
+            out.extend(r.uniform(-100, 100, size=9).astype(ft).tobytes())
         out.extend(fr['x'].astype(ft).tobytes())
         if with_v:
             out.extend(r.uniform(-1, 1, size=n * 3).astype(ft).tobytes())
